@@ -1,11 +1,155 @@
 package main
 
+import (
+	"encoding/json"
+	"fmt"
+	"os"
+	"os/exec"
+	"path/filepath"
+	"sort"
+	"strings"
+	"sync"
+)
+
+// Self-validation of the checker (thorough tier): every seeded change kept under
+// /verif/seeded (a realistic modification of biscuit-go that breaks a property while
+// compiling and passing the test suite) is applied to a scratch copy of the CURRENT
+// /repo and the property's rules must report it; behaviour-preserving rewrites under
+// /verif/benign must leave them silent. This is static analysis of the variant's
+// source; the result is reported in the evidence and is never a verdict about /repo.
+
 type selfValResult struct {
-	Applied  int      `json:"applied"`
-	Detected int      `json:"detected"`
-	Skipped  int      `json:"skipped"`
-	Broken   int      `json:"not_detected"`
-	Details  []string `json:"details"`
+	Applied        int      `json:"applied"`
+	Detected       int      `json:"detected"`
+	Skipped        int      `json:"skipped"`
+	Broken         int      `json:"not_detected"`
+	BenignApplied  int      `json:"benign_applied"`
+	BenignSilent   int      `json:"benign_silent"`
+	BenignAlarming int      `json:"benign_alarming"`
+	Details        []string `json:"details"`
 }
 
-func selfValidate(prop, root string) selfValResult { return selfValResult{} }
+type seedMeta struct {
+	Property   string   `json:"property"`
+	DetectedBy []string `json:"detected_by_checks"`
+}
+
+func selfValidate(prop, root string) selfValResult {
+	var res selfValResult
+	exe, err := os.Executable()
+	if err != nil {
+		res.Details = append(res.Details, "cannot locate own executable: "+err.Error())
+		return res
+	}
+	type job struct {
+		dir    string
+		benign bool
+	}
+	var jobs []job
+	seeds, _ := filepath.Glob(filepath.Join(root, "seeded", "*", "patch.diff"))
+	sort.Strings(seeds)
+	for _, pth := range seeds {
+		dir := filepath.Dir(pth)
+		var m seedMeta
+		if b, err := os.ReadFile(filepath.Join(dir, "meta.json")); err == nil {
+			json.Unmarshal(b, &m)
+		}
+		want := m.Property == prop
+		for _, d := range m.DetectedBy {
+			if d == prop {
+				want = true
+			}
+		}
+		if want {
+			jobs = append(jobs, job{dir, false})
+		}
+	}
+	benign, _ := filepath.Glob(filepath.Join(root, "benign", "*", "patch.diff"))
+	sort.Strings(benign)
+	for _, pth := range benign {
+		jobs = append(jobs, job{filepath.Dir(pth), true})
+	}
+	var mu sync.Mutex
+	var wg sync.WaitGroup
+	sem := make(chan struct{}, 6)
+	for _, j := range jobs {
+		wg.Add(1)
+		go func(j job) {
+			defer wg.Done()
+			sem <- struct{}{}
+			defer func() { <-sem }()
+			status, note := runVariant(exe, *flagRepo, j.dir, prop)
+			mu.Lock()
+			defer mu.Unlock()
+			name := filepath.Base(j.dir)
+			switch {
+			case status == "skipped":
+				res.Skipped++
+				res.Details = append(res.Details, name+": skipped ("+note+")")
+			case j.benign:
+				res.BenignApplied++
+				if status == "silent" {
+					res.BenignSilent++
+					res.Details = append(res.Details, name+": benign rewrite, silent")
+				} else {
+					res.BenignAlarming++
+					res.Details = append(res.Details, name+": benign rewrite RAISED AN ALARM: "+note)
+				}
+			default:
+				res.Applied++
+				if status == "violation" {
+					res.Detected++
+					res.Details = append(res.Details, name+": detected: "+note)
+				} else {
+					res.Broken++
+					res.Details = append(res.Details, name+": NOT detected")
+				}
+			}
+		}(j)
+	}
+	wg.Wait()
+	sort.Strings(res.Details)
+	return res
+}
+
+// runVariant copies repo to a temporary directory, applies dir/patch.diff and runs the property's quick check on it.
+func runVariant(exe, repo, dir, prop string) (status, note string) {
+	tmp, err := os.MkdirTemp("", "bvcheck-variant-")
+	if err != nil {
+		return "skipped", err.Error()
+	}
+	defer os.RemoveAll(tmp)
+	cp := exec.Command("sh", "-c", fmt.Sprintf("cd %q && tar --exclude=.git -cf - . | tar -xf - -C %q", repo, tmp))
+	if out, err := cp.CombinedOutput(); err != nil {
+		return "skipped", "copy failed: " + strings.TrimSpace(string(out))
+	}
+	ap := exec.Command("git", "apply", "--whitespace=nowarn", filepath.Join(dir, "patch.diff"))
+	ap.Dir = tmp
+	ap.Env = append(os.Environ(), "GIT_CEILING_DIRECTORIES="+filepath.Dir(tmp))
+	if out, err := ap.CombinedOutput(); err != nil {
+		return "skipped", "patch no longer applies to the current tree: " + oneLine(string(out))
+	}
+	run := exec.Command(exe, "-property", prop, "-tier", "quick", "-no-evidence", "-repo", tmp, "-verif", verifRoot())
+	out, err := run.CombinedOutput()
+	s := string(out)
+	if strings.Contains(s, "type-check/load errors") {
+		return "skipped", "variant does not type-check"
+	}
+	if err != nil && strings.Contains(s, "VIOLATION property="+prop) {
+		first := ""
+		for _, ln := range strings.Split(s, "\n") {
+			if strings.HasPrefix(ln, "[violated]") || strings.HasPrefix(ln, "[undecided]") {
+				first = ln
+				break
+			}
+		}
+		if len(first) > 260 {
+			first = first[:260] + "..."
+		}
+		return "violation", first
+	}
+	if err == nil {
+		return "silent", ""
+	}
+	return "skipped", "checker failed: " + oneLine(s)
+}
